@@ -356,12 +356,12 @@ class XrPlugin:
         if name == "values":
             if f["masks"]:
                 raise Unsupported(".values of a lazily masked DataArray")
+            a = f["arr"]
+            r = Arr(a.shape, a.base, a.ups, a.sort) if not isinstance(a, CArr) else CArr(a.shape, a.data, a.sort)
             if f["nan"] is not None:
-                a = f["arr"]
-                r = Arr(a.shape, a.base, a.ups, a.sort)
                 r.nanmask = f["nan"]
-                return st.alloc(r, "values")
-            return st.alloc(f["arr"], "values")
+            r.is_view = True       # numpy view of the DataArray's buffer: a store through it would mutate the DataArray
+            return st.alloc(r, "values")
         if name == "name":
             return f["name"]
         if name == "coords":
@@ -394,7 +394,14 @@ class XrPlugin:
                 return mk_xa(s, f["dims"], r, None, f["coords"], f["masks"])
             return method(isnull)
         if name == "where":
-            return method(lambda i, s, a, k: xa_where(i, s, o, a[0], a[1] if len(a) > 1 else k.get("other", NANV)))
+            def where(i, s, a, k):
+                if k.get("drop"):
+                    c = s.deref(a[0])
+                    if is_xa(c) and len(c.fields["dims"]) == 1 and c.fields["arr"].sort == "bool":
+                        return s.alloc(xa_isel(i, s, o, {c.fields["dims"][0]: c.fields["arr"]}), "DataArray")
+                    raise Unsupported("where(drop=True) with a condition that is not a 1-d boolean DataArray")
+                return xa_where(i, s, o, a[0], a[1] if len(a) > 1 else k.get("other", NANV))
+            return method(where)
         if name == "isel":
             def isel(i, s, a, k):
                 ind = dict(s.deref(a[0])) if a else {}
@@ -463,6 +470,12 @@ class XrPlugin:
                 return xr_apply(st, lambda x: T.uf(u, x), [a])
             if u in ("abs", "absolute", "fabs"):
                 return xr_apply(st, T.absv, [a])
+            if u == "neg":
+                return xr_apply(st, T.neg, [a])
+            if u == "pos":
+                return xr_apply(st, lambda x: x, [a])
+            if u == "invert":
+                return xr_apply(st, T.lnot, [a], sort="bool")
             if u in ("isnan",):
                 return XrPlugin().obj_getattr(interp, st, None, a, "isnull").impl(interp, st, [], {})
             raise Unsupported(f"ufunc {u} on a DataArray")
@@ -554,7 +567,15 @@ class XrPlugin:
             return LibFunc("Dataset.__iter__", lambda i, s, a, k: s.alloc(list(o.fields["vars"]), "list"))
         if name == "copy":
             def cp(i, s, a, k):
-                return s.alloc(Obj("Dataset", {"vars": dict(o.fields["vars"]), "coords": dict(o.fields["coords"])}), "Dataset")
+                deep = bool(s.deref(k.get("deep", a[0] if a else False)))
+                vs = dict(o.fields["vars"])
+                if deep:
+                    # fresh buffers: every variable becomes a new DataArray object (same values)
+                    for kk, v in list(vs.items()):
+                        x = s.deref(v)
+                        if is_xa(x):
+                            vs[kk] = mk_xa(s, x.fields["dims"], x.fields["arr"], x.fields["nan"], x.fields["coords"], x.fields["masks"], x.fields["name"])
+                return s.alloc(Obj("Dataset", {"vars": vs, "coords": dict(o.fields["coords"]), "deep_copy_of": id(o) if deep else None}), "Dataset")
             return LibFunc("Dataset.copy", lib._wrap("xarray.Dataset.copy", cp))
         if name == "assign":
             def assign(i, s, a, k):
@@ -562,7 +583,13 @@ class XrPlugin:
                 d.update(k)
                 nv = dict(o.fields["vars"])
                 nv.update(d)
-                return s.alloc(Obj("Dataset", {"vars": nv, "coords": dict(o.fields["coords"])}), "Dataset")
+                cs = dict(o.fields["coords"])
+                for v in d.values():
+                    vv = s.deref(v)
+                    if is_xa(vv):
+                        for ck, cv in vv.fields["coords"].items():
+                            cs.setdefault(ck, cv)
+                return s.alloc(Obj("Dataset", {"vars": nv, "coords": cs}), "Dataset")
             return LibFunc("Dataset.assign", lib._wrap("xarray.Dataset.assign", assign))
         if name in o.fields["vars"] or name in o.fields["coords"]:
             return self._ds_get(interp, st, o, name)
